@@ -155,6 +155,18 @@ def sample_sel(size: int, n: int) -> bool:
     return _sample_sel(size, n)
 
 
+def sample_sel_wide(size: int, n: int) -> bool:
+    """
+    pre: 1 <= size <= 48 and 0 <= n <= 64
+    pre: PART < 0 or (size - 1) // 6 == PART
+    post: _
+    """
+    # sizes well beyond the symbolic obligations, run natively: spacing arithmetic that is only right for small or 'round' sizes shows here
+    size, n = mark.pick(size, 1, 48), mark.pick(n, 0, 64)
+    with mark.untraced():
+        return _sample_sel(size, n)
+
+
 def _sample_sel(size, n, first_n=None):
     s = S.Sample(size)
     if first_n is not None:
